@@ -35,7 +35,7 @@ def sh(cmd, timeout=3600, cwd=None, env=None):
 
 
 # the generated parts of the model (rewritten from the source tree by `make gen`) and the properties whose theorems rest on them
-GENERATORS = {'prectable': ['C14', 'C15'], 'offlinegen': ['C01'], 'onlinegen': ['C02'], 'denseonlinegen': ['C05', 'C06'], 'pastifiergen': ['C03'], 'explainergen': ['C20'], 'denseofflinegen': ['C04', 'C06'], 'mergegen': ['C04', 'C05'], 'unitsgen': ['C08', 'C13'], 'parservisitorgen': ['C14', 'C15'], 'onlinevisitorgen': ['C02', 'C09', 'C10', 'C12'], 'shellgen': ['C12', 'C01'], 'denseonlinevisitorgen': ['C05']}
+GENERATORS = {'prectable': ['C14', 'C15'], 'offlinegen': ['C01'], 'onlinegen': ['C02'], 'denseonlinegen': ['C05', 'C06'], 'pastifiergen': ['C03', 'C18'], 'explainergen': ['C20'], 'denseofflinegen': ['C04', 'C06'], 'mergegen': ['C04', 'C05'], 'unitsgen': ['C08', 'C13'], 'parservisitorgen': ['C14', 'C15'], 'onlinevisitorgen': ['C02', 'C09', 'C10', 'C12'], 'shellgen': ['C12', 'C01'], 'denseonlinevisitorgen': ['C05']}
 
 
 def ensure_build():
